@@ -107,6 +107,30 @@ func solveAll(paths []*PathScript, workDir string, perQueryMs int, jobs int, onl
 	wg.Wait()
 }
 
+// isolate builds a script that contains everything up to obligation seq and
+// only that obligation's check (a fresh, non-incremental solver run is more
+// reliable for E-matching than push/pop mode).
+func isolate(script string, seq int) string {
+	parts := strings.Split(script, "(push 1)")
+	var sb strings.Builder
+	sb.WriteString(parts[0])
+	marker := fmt.Sprintf("(echo \"OBL %d ", seq)
+	for _, b := range parts[1:] {
+		i := strings.Index(b, "(pop 1)")
+		if i < 0 {
+			continue
+		}
+		body, rest := b[:i], b[i+len("(pop 1)"):]
+		if strings.Contains(body, marker) {
+			sb.WriteString(body)
+			sb.WriteString("\n(exit)\n")
+			return sb.String()
+		}
+		sb.WriteString(rest)
+	}
+	return sb.String()
+}
+
 func solvePath(ps *PathScript, workDir string, perQueryMs int, onlySolver string, stats *SolveStats) {
 	base := filepath.Join(workDir, fmt.Sprintf("%s.p%d", sanitize(ps.Func), ps.ID))
 	nobl := 0
@@ -115,70 +139,74 @@ func solvePath(ps *PathScript, workDir string, perQueryMs int, onlySolver string
 			nobl++
 		}
 	}
-	pending := func() bool {
-		for _, o := range ps.Obls {
-			if o.Trivial {
-				continue
-			}
-			if o.Kind == "cover" {
-				if o.Status == "" {
-					return true
-				}
-				continue
-			}
-			if o.Status != "unsat" {
-				return true
-			}
-		}
-		return false
-	}
-	for _, sv := range solvers {
-		if onlySolver != "" && !strings.HasPrefix(sv.Name, onlySolver) {
-			continue
-		}
-		if !pending() {
-			break
-		}
-		file := base + "." + sv.Name + ".smt2"
-		if err := os.WriteFile(file, []byte(sv.Pre+ps.Script), 0o644); err != nil {
-			continue
-		}
-		res, secs, err := runScript(sv, file, perQueryMs, nobl)
+	record := func(sv SolverCfg, secs float64) {
 		stats.mu.Lock()
 		stats.Scripts++
 		stats.SolverSec[sv.Name] += secs
 		stats.mu.Unlock()
-		if err != nil {
+	}
+	// pass 1: whole path, incremental, E-matching only
+	first := solvers[0]
+	if onlySolver == "" || strings.HasPrefix(first.Name, onlySolver) {
+		file := base + "." + first.Name + ".smt2"
+		if err := os.WriteFile(file, []byte(first.Pre+ps.Script), 0o644); err == nil {
+			res, secs, _ := runScript(first, file, perQueryMs, nobl)
+			record(first, secs)
 			for _, o := range ps.Obls {
-				if !o.Trivial && o.Status == "" {
-					o.Status = "error: " + err.Error()
+				if o.Trivial {
+					continue
+				}
+				if r, ok := res[o.Seq]; ok {
+					o.Status = r
+					o.Solver = first.Name
+					o.Secs = secs / float64(nobl)
 				}
 			}
+		}
+	}
+	// pass 2: every obligation that is not discharged, isolated, through all back ends
+	for _, o := range ps.Obls {
+		if o.Trivial || o.Status == "unsat" {
 			continue
 		}
-		for _, o := range ps.Obls {
-			if o.Trivial {
+		if o.Kind == "cover" && o.Status != "" && o.Status != "unsat" {
+			continue
+		}
+		iso := isolate(ps.Script, o.Seq)
+		for _, sv := range solvers {
+			if onlySolver != "" && !strings.HasPrefix(sv.Name, onlySolver) {
 				continue
 			}
+			file := fmt.Sprintf("%s.o%d.%s.smt2", base, o.Seq, sv.Name)
+			if err := os.WriteFile(file, []byte(sv.Pre+iso), 0o644); err != nil {
+				continue
+			}
+			ms := perQueryMs
+			if o.Kind == "cover" {
+				ms = 2000
+			}
+			res, secs, err := runScript(sv, file, ms, 1)
+			record(sv, secs)
 			r, ok := res[o.Seq]
+			if err != nil && !ok {
+				if o.Status == "" {
+					o.Status = "error: " + err.Error()
+				}
+				continue
+			}
 			if !ok {
 				continue
 			}
-			if o.Status == "unsat" {
-				continue
-			}
-			if o.Kind == "cover" {
-				// a cover probe is fine when it is not refuted; unsat means vacuity
-				if o.Status == "" || r == "unsat" || r == "sat" {
-					o.Status = r
-					o.Solver = sv.Name
-				}
-				continue
-			}
-			if r == "unsat" || o.Status == "" || (r == "sat" && o.Status != "sat") {
+			if r == "unsat" || r == "sat" || o.Status == "" || strings.HasPrefix(o.Status, "error") {
 				o.Status = r
 				o.Solver = sv.Name
-				o.Secs = secs / float64(nobl)
+				o.Secs = secs
+			}
+			if r == "unsat" || r == "sat" {
+				break
+			}
+			if o.Kind == "cover" {
+				break
 			}
 		}
 	}
